@@ -921,7 +921,15 @@ class Evaluator:
         del self.pc[mark:]
         if not vals:
             return T.TRUE if is_and else T.FALSE
-        return T.mk_and(vals) if is_and else T.mk_or(vals)
+        if any(T._boolish(v) for v in vals) or any((v.single_atom() or ("",))[0] in ("param", "attr", "call", "mcall", "getattr", "loopvar") and
+                                                   not _numeric_idiom(vals) for v in vals):
+            # a condition (flags, predicates): logical formula over the operands' truth values
+            return T.mk_and(vals) if is_and else T.mk_or(vals)
+        # value semantics of and / or on non-boolean operands:  a and b == (b if a else a),  a or b == (a if a else b)
+        res = vals[-1]
+        for v in reversed(vals[:-1]):
+            res = T.mk_ite(v, res, v) if is_and else T.mk_ite(v, v, res)
+        return res
 
     def ev_Compare(self, e, st):
         left = self.ev(e.left, st)
@@ -1349,6 +1357,11 @@ def _local_names(fi):
             stack.extend(ast.iter_child_nodes(n))
         _LOCALS[fi.node] = r
     return r
+
+
+def _numeric_idiom(vals):
+    """`n and x / n`, `v or 0`: and/or used for their value on numbers (some operand is arithmetic or a numeric constant)."""
+    return any(v.is_const() or v.single_atom() is None for v in vals)
 
 
 def _as_increment(old, v):
